@@ -248,14 +248,14 @@ prop("C16",
      deadline={"quick": 240, "thorough": 1200})
 
 
-_GATE_BUILDS = ["dbgundef", "dbg0", "dbg1", "dbg2", "dbg3", "dbg4", "dbg5", "dbg9999"]
+_GATE_BUILDS = ["dbgundef", "dbg0", "dbg1", "dbg2", "dbg3", "dbg4", "dbg5", "dbg9999", "dbg4nd", "dbg0nd"]
 prop("C20",
      level="exploration",
-     technique="exhaustive walk of the configuration matrix (8 compile-time DEBUG builds x probe x runtime level x silent), each cell in a forked child with stderr on a pipe, against a table-driven gate model",
+     technique="exhaustive walk of the configuration matrix (8 compile-time DEBUG builds + 2 with NDEBUG and -O2 x probe x runtime level x silent), each cell in a forked child with stderr on a pipe, against a table-driven gate model",
      rule="for each build DEBUG in {undefined,0,1,2,3,4,5,9999} the probe program and the library are compiled with that DEBUG; every (macro probe x runtime level in {0..6,9999}) cell and every (output primitive x level x silent) cell runs in a child: "
           "bytes written to stderr, side-effect counters in the macro arguments/conditions, the return value, whether the function continued and the exit status must match the gate model; thorough adds one real in-library statement per D_* family; "
           "non-trivial = every executed cell",
-     bounds={"quick": "8 builds x 29 probes x 8 levels (+ silent for the 3 primitives)", "thorough": "same + 4 in-library statements per build"},
+     bounds={"quick": "10 builds x 29 probes x 8 levels x silent {off,on} x history {fresh process, after refused output calls}", "thorough": "same + 4 in-library statements per build"},
      runs=[dict(name="h_gate_" + b, sources=["harness/h_gate.c"], profile=b, args={"quick": ["--build=" + b], "thorough": ["--build=" + b]}) for b in _GATE_BUILDS],
      deadline={"quick": 300, "thorough": 1200})
 
